@@ -27,6 +27,12 @@ CLAIMED = {
          "lock that guards the insert, generate only on miss edges inside that hold, and mutate the schema object resolved from the container; generators are referenced only by creators and each is one atomic "
          "increment; lookups consult mutable, immutable and persisted data before creating; counters are synced before dictionaries and postings before the series dictionary; prepare-flush swaps only onto an empty "
          "immutable; immutable is cleared only after a successful commit (new snapshot in the same hold); counter file writer/reader agree per role; plus the F8 freeze rule shared with C07 (known finding)."),
+ 'C14': ("static analysis: RESET rule (fields dirtied outside a reuse entry must be re-initialised on every non-failing path of it, through helpers), provenance of pooled objects, aliasing check of the pooled snappy writer",
+         "Decides only the reuse-history clause of the property: for 13 reusable encoder/decoder/buffer types every field, sub-object or array element written outside the reuse entry is re-initialised on every non-failing path of that entry; pooled encoders are reset before "
+         "being handed out and pooled decoders are re-initialised before any other use at every call site; the pooled snappy writer returns a fresh copy taken before its buffer is reset. Losslessness of the codecs for arbitrary inputs is a numeric property and is not decided."),
+ 'C16': ("static analysis: RESET rule for pooled rows/batches/converters, ordered-dominance (validate<dedup<every read of the tag list), switch exhaustiveness over the field-type enum, provenance of the shard index, edge facts of the write-window test, role binding of (behind, ahead) along the call chain",
+         "Decides structural conditions of canonicalisation and routing: a re-filled pooled row is completely re-initialised; batch and converter reset all accumulation buffers; validation precedes building, tags are sorted and de-duplicated before any read of the tag list (so hash and stored key/values see the same tags); "
+         "every simple field type has a case; shard index of row i = jump-hash(tags hash of row i, shard count) for all rows; a row is marked out-of-range only on the two window-violation edges and the bounds reach the test in the role order of the signature. Hash value properties, format agreement and limits are not decided."),
  'C17': ("static analysis over the type-checked AST and go/ssa: exhaustiveness of the Marshal type switch over all Expr implementers, tag/type agreement of Marshal and Unmarshal, per-kind and per-statement field coverage (value flow + unconditional copy), carrier tag uniqueness, parser determinism scan",
          "Decides writer/reader agreement of the statement wire form: every Expr implementer has a Marshal case; the tag sets agree and each tag binds one Go type on both sides; leaf kinds go through the JSON encoder over exported uniquely-tagged fields; every field of every structured kind is read when marshalling and set when "
          "unmarshalling; every field of Query/MetricMetadata flows into the carrier and back through the same carrier field, not conditional on anything but itself or a decode error; the leaf executes the decoded payload and the root sends MarshalJSON; no map-ordered construction or stray clock source in the parser. "
